@@ -294,6 +294,14 @@ func (s *c17Server) stop() {
 }
 
 func (s *c17Server) call(name string) string {
+	// first as a notification: the assigner is consulted for it like for a call - with the inbound request and
+	// the server in its context (the checking wrapper records what is missing) - and nothing is answered; the call
+	// that follows is dispatched only after the notification has been handled
+	if name != "" {
+		if err := s.cli.Notify(context.Background(), name, nil); err != nil {
+			return "E?notify:" + err.Error()
+		}
+	}
 	before := s.log.seen
 	rsp, err := s.cli.Call(context.Background(), name, nil)
 	obs := ""
